@@ -306,6 +306,37 @@ def r14_ambient_tensor_type(ctx):
               "the default tensor type is not restored in a `finally` after the body: a later run in the process inherits this one's type", construct="type restored afterwards")
 
 
+def r16_seed_presence_not_truthiness(ctx):
+    """'a fixed seed': 0 is a seed.  Whether a configured seed is taken over is decided by its presence (`"seed" in settings`, `is not None`),
+    never by its truth value - `if settings.get("seed"):` drops the seed 0 and the run is then not seeded at all."""
+    ctx.rule("C11.R16", "a configured seed is recognised by its presence, never by its truth value (0 is a seed)", 1)
+    n_ok = 0
+
+    def reads_seed(e):
+        t = U(e)
+        return t in ("seed", "self.seed", "settings.seed", "algorithm_settings.seed") or (isinstance(e, ast.Subscript) and isinstance(e.slice, ast.Constant) and e.slice.value == "seed") \
+            or (isinstance(e, ast.Call) and isinstance(e.func, ast.Attribute) and e.func.attr in ("get", "pop") and e.args and isinstance(e.args[0], ast.Constant) and e.args[0].value == "seed")
+    for f in ctx.ix.iter_funcs():
+        if f.mod not in ("leaspy.algo.settings", "leaspy.algo.base", "leaspy.models.base"):
+            continue
+        for n in walk_no_nested(f.node):
+            tests = []
+            if isinstance(n, (ast.If, ast.While, ast.IfExp)):
+                tests.append(n.test)
+            if isinstance(n, ast.BoolOp):
+                tests.extend(n.values[:-1] if isinstance(n.op, ast.Or) else n.values)
+            for t in tests:
+                core_ = t.operand if isinstance(t, ast.UnaryOp) and isinstance(t.op, ast.Not) else t
+                if reads_seed(core_):
+                    ctx.violation("C11.R16", f, t, f"`{U(t)[:60]}` decides on the truth value of the seed: the seed 0 is treated as 'no seed', so a run configured with it is never seeded and "
+                                  "two identical calls give different results", construct=f"truthiness of the seed in {f.qual}")
+                elif isinstance(core_, ast.Compare) and any(reads_seed(x) or (isinstance(x, ast.Constant) and x.value == "seed") for x in [core_.left] + list(core_.comparators)):
+                    n_ok += 1
+                    ctx.ok("C11.R16", f, t, f"`{U(t)[:60]}`: presence / None test", construct=f"seed test in {f.qual}")
+    if not n_ok:
+        ctx.unknown("C11.R16", ("leaspy.algo.settings", "AlgorithmSettings.load"), None, "no presence test about the seed found any more", construct="seed tests")
+
+
 def r6_history(ctx, cg):
     ctx.rule("C11.R6", "no process-history channel under run (class attributes, module globals, process-wide settings)", 1)
     run = _entry(ctx, BASE, "BaseAlgorithm.run", "C11.R6")
@@ -392,6 +423,7 @@ def rules(ctx):
     r5_definite_assignment(ctx)
     r6_history(ctx, cg)
     r14_ambient_tensor_type(ctx)
+    r16_seed_presence_not_truthiness(ctx)
     r7_deepcopy(ctx)
     r10_no_bare_squeeze_in_logging(ctx)
     r13_log_folders_created(ctx)
